@@ -236,4 +236,16 @@ class MyTuple(tuple):
     pass
 
 
+def _run_ref(self):
+    """A result that refers back to task objects (itself and its dependencies)."""
+    _record(self, 'start', context=(None if self.context is None else {k: repr(v) for k, v in sorted(self.context.items())}),
+            start_method=None, main_file=None, marker=getattr(sys.modules.get('lv_universe'), 'PARENT_MARKER', None), derived=None)
+    deps = flat(self.deps)
+    return {'by': self, 'deps': tuple(deps), 'vals': tuple(d.result['label'] if isinstance(d.result, dict) else d.result for d in deps),
+            'label': self.label}
+
+
+TRef = labtech.task(type('TRef', (), {'__annotations__': {'label': int, 'deps': Any}, 'deps': (), 'run': _run_ref,
+                                      '__module__': __name__, '__qualname__': 'TRef'}))
+
 PARENT_MARKER = 'import-time'
